@@ -17,7 +17,10 @@ Notation dwf_k := (dwf_k lay).
 
 Definition dmatch (x : ntok) : tmatch :=
   match x with
-  | NTerm name i => mkMatch KVariable name (Some (didx lay name i)) (String.length (dtext x))
+  | NTerm name i =>
+      mkMatch (style_kind (lstyle (lay name i))) name
+              (match lindex (lay name i) with None => None | Some (_, _, plus) => Some (ibody plus i) end)
+              (String.length (dtext x))
   | _ => ntok_match x
   end.
 Definition dpiece (x : ntok) : piece := match x with NChr c => PChr c | _ => PTok (dtext x) (dmatch x) end.
@@ -41,14 +44,26 @@ Lemma dtok_lex pw x rest :
   end.
 Proof.
   destruct x as [name i|name|k|body|c]; try (exact (ntok_lex pw _ rest)).
-  cbn [Denorm.dtok_ok Denorm.dtext dmatch mlen]. unfold didx. destruct (lay name i) as [[w1 w2] plus].
-  intros H. apply andb_true_iff in H as [H _]. apply andb_true_iff in H as [H B2]. apply andb_true_iff in H as [H B1].
-  apply andb_true_iff in H as [H Hi]. apply andb_true_iff in H as [Hid Hkw].
-  split; [apply app_ne, (ident_ne _ Hid)|]. split; [reflexivity|].
-  pose proof (match_here_var_idx pw name w1 (ibody plus i) w2 rest Hid Hkw B1 B2 Hi) as M.
-  rewrite sapp_assoc.
-  replace (("[" ++ w1 ++ ibody plus i ++ w2 ++ "]") ++ rest) with (idx_text w1 (ibody plus i) w2 ++ rest) by (unfold idx_text; reflexivity).
-  rewrite M. f_equal. f_equal. rewrite slen_app. unfold idx_text. reflexivity.
+  cbn [Denorm.dtok_ok Denorm.dtext dmatch mlen]. destruct (lay name i) as [s ix]. cbn [lstyle lindex].
+  intros H. apply andb_true_iff in H as [H _]. apply andb_true_iff in H as [H Hix]. apply andb_true_iff in H as [Hid Hst].
+  assert (Hne : style_text s name ++ index_text ix i <> "").
+  { apply app_ne. destruct s; cbn [style_text]; [apply (ident_ne _ Hid)|discriminate|discriminate]. }
+  split; [exact Hne|]. split; [reflexivity|]. rewrite sapp_assoc.
+  destruct ix as [[[v1 v2] plus]|]; cbn [index_ok index_text] in *.
+  - apply andb_true_iff in Hix as [Hix B2]. apply andb_true_iff in Hix as [Hi B1].
+    destruct s as [|w1 w2|w1 w2]; cbn [style_ok style_text style_kind] in *.
+    + rewrite (match_here_var_idx pw name v1 (ibody plus i) v2 rest Hid Hst B1 B2 Hi). rewrite slen_app. reflexivity.
+    + apply andb_true_iff in Hst as [W1 W2].
+      rewrite (match_here_par pw w1 name w2 _ Hid W1 W2), (with_index_idx _ _ _ v1 (ibody plus i) v2 rest B1 B2 Hi). rewrite slen_app. reflexivity.
+    + apply andb_true_iff in Hst as [W1 W2].
+      rewrite (match_here_err pw w1 name w2 _ Hid W1 W2), (with_index_idx _ _ _ v1 (ibody plus i) v2 rest B1 B2 Hi). rewrite slen_app. reflexivity.
+  - apply andb_true_iff in Hix as [_ Hf]. cbn [append]. rewrite sapp_nil_r.
+    destruct s as [|w1 w2|w1 w2]; cbn [style_ok style_text style_kind] in *.
+    + apply (match_here_var_bare pw name rest Hid Hst Hf).
+    + apply andb_true_iff in Hst as [W1 W2].
+      rewrite (match_here_par pw w1 name w2 rest Hid W1 W2), (with_index_bare _ _ _ rest Hf). reflexivity.
+    + apply andb_true_iff in Hst as [W1 W2].
+      rewrite (match_here_err pw w1 name w2 rest Hid W1 W2), (with_index_bare _ _ _ rest Hf). reflexivity.
 Qed.
 
 Theorem dwf_lex_ok l : forall pw, dwf_k pw l "" = true -> lex_ok pw (dpieces l).
@@ -66,44 +81,47 @@ Proof. intros H. rewrite <- dflat_pieces. apply scan_items_pieces, dwf_lex_ok, H
 
 (* ---- the Terms ---- *)
 Lemma mk_term_dmatch pw x rest t :
-  dtok_ok pw x rest = true -> tok_term TVariable x = Some t -> mk_term (dmatch x) = Ret t.
+  dtok_ok pw x rest = true -> lay_term lay TVariable x = Some t -> mk_term (dmatch x) = Ret t.
 Proof.
-  destruct x as [name i|name|k|body|c]; cbn [tok_term dmatch ntok_match]; intros H E; inversion E; subst; clear E.
-  - cbn [Denorm.dtok_ok] in H. unfold didx. destruct (lay name i) as [[w1 w2] plus].
-    apply andb_true_iff in H as [_ Hq]. unfold mk_term. cbn [mkind mindex mname kind_type].
-    destruct i as [z|s].
-    + rewrite (mk_index_ibody plus z Hq). reflexivity.
-    + cbn [ibody]. unfold mk_index. rewrite Hq. reflexivity.
+  destruct x as [name i|name|k|body|c]; cbn [lay_term tok_term dmatch ntok_match]; intros H E; inversion E; subst; clear E.
+  - cbn [Denorm.dtok_ok] in H. destruct (lay name i) as [s ix]. cbn [lstyle lindex] in *.
+    apply andb_true_iff in H as [H Hq]. apply andb_true_iff in H as [_ Hix].
+    assert (Hidx : mk_index (match ix with None => None | Some (_, _, plus) => Some (ibody plus i) end) = Ret i).
+    { destruct ix as [[[v1 v2] plus]|]; cbn [index_ok] in Hix.
+      - destruct i as [z|s0]; [apply (mk_index_ibody plus z Hq)|]. cbn [ibody]. unfold mk_index. rewrite Hq. reflexivity.
+      - apply andb_true_iff in Hix as [Hz _]. destruct i as [z|s0]; [|discriminate]. apply Z.eqb_eq in Hz. subst z. reflexivity. }
+    unfold mk_term. cbn [mkind mindex mname]. destruct s; cbn [style_kind style_type kind_type]; rewrite Hidx; reflexivity.
   - reflexivity.
   - reflexivity.
   - reflexivity.
 Qed.
 
-Lemma dterms_pieces l : forall pw, dwf_k pw l "" = true -> map_o mk_term (piece_matches (dpieces l)) = Ret (tok_terms TVariable l).
+Lemma dterms_pieces l : forall pw, dwf_k pw l "" = true -> map_o mk_term (piece_matches (dpieces l)) = Ret (lay_terms lay TVariable l).
 Proof.
   induction l as [|x l IH]; intros pw H; [reflexivity|].
   cbn [Denorm.dwf_k] in H. apply andb_true_iff in H as [Hx Hr]. specialize (IH _ Hr).
-  destruct x as [name i|name|kw|body|c]; cbn [dpieces map dpiece piece_matches tok_terms]; fold (dpieces l).
+  destruct x as [name i|name|kw|body|c]; cbn [dpieces map dpiece piece_matches lay_terms]; fold (dpieces l).
   5: exact IH.
-  all: cbn [map_o tok_term]; erewrite (mk_term_dmatch pw _ _ _ Hx) by reflexivity; rewrite IH; reflexivity.
+  all: cbn [map_o lay_term tok_term]; erewrite (mk_term_dmatch pw _ _ _ Hx) by reflexivity; rewrite IH; reflexivity.
 Qed.
 
-Theorem dparse_terms l : dwf_k false l "" = true -> parse_terms (dflat l) = Ret (tok_terms TVariable l).
+Theorem dparse_terms l : dwf_k false l "" = true -> parse_terms (dflat l) = Ret (lay_terms lay TVariable l).
 Proof.
   intros H. unfold parse_terms. rewrite <- dflat_pieces. rewrite (matches_pieces _ (dwf_lex_ok l false H)).
   apply (dterms_pieces l false H).
 Qed.
 End Lay.
 
-Lemma replace_type_terms ty l : ty <> TVariable -> map (replace_type ty) (tok_terms TVariable l) = tok_terms ty l.
+Lemma replace_type_terms lay ty l : ty <> TVariable -> map (replace_type ty) (lay_terms lay TVariable l) = lay_terms lay ty l.
 Proof.
-  intros Hty. induction l as [|x l IH]; [reflexivity|]. destruct x; cbn [tok_terms tok_term map]; rewrite ?IH; reflexivity.
+  intros Hty. induction l as [|x l IH]; [reflexivity|]. destruct x as [name i|name|k|body|c]; cbn [lay_terms lay_term tok_term map]; rewrite ?IH; try reflexivity.
+  destruct (lstyle (lay name i)); reflexivity.
 Qed.
 
-(* tokens never yield an INVALID term; only NKw yields a KEYWORD term *)
-Lemma tok_terms_no_invalid ty l : ty <> TInvalid -> has_type TInvalid (tok_terms ty l) = false.
+(* tokens never yield an INVALID term *)
+Lemma lay_terms_no_invalid lay ty l : ty <> TInvalid -> has_type TInvalid (lay_terms lay ty l) = false.
 Proof.
   intros Hty. unfold has_type. induction l as [|x l IH]; [reflexivity|].
-  destruct x; cbn [tok_terms tok_term existsb ttype type_eqb]; rewrite ?IH; try reflexivity.
-  destruct ty; try reflexivity. congruence.
+  destruct x as [name i|name|k|body|c]; cbn [lay_terms lay_term tok_term existsb ttype type_eqb]; rewrite ?IH; try reflexivity.
+  destruct (lstyle (lay name i)); cbn [style_type type_eqb]; try reflexivity. destruct ty; try reflexivity. congruence.
 Qed.
